@@ -833,16 +833,19 @@ def nblaw_shards(tier, props, known):
 # ------------------------------------------------------------------ C06 (notebooks)
 OWN_ACTS = ["src1", "del", "rerun", "ec", "out_edit", "md_edit", "md_add", "out_clear"]
 OWN_ACTS_SMALL = ["src1", "del", "rerun", "md_edit"]
+OWN_ACTS_PASTE = ["del", "src1", "md_edit"]
 OWN_ACTS_SHORT = ["del", "src1", "ec"]
 
 
 def make_owned(templates, ids=(0, 1), acts="OWN_ACTS", inserts=True, props=("C06",), known=(),
-               sym=("ec", "md"), ins_names=("N2", "Nm")):
+               sym=("ec", "md"), ins_names=("N2", "Nm"), paste=False):
     """Each base cell is owned by nobody, local or remote (E.choice); only the
     owner changes it.  A side may insert a new cell into a gap only if neither
     neighbouring cell is owned by the other side, and at most one side inserts
     into a gap.  Expected result by construction: base with both action sets
-    applied."""
+    applied.  paste: a side that deletes cell g and inserts into gap g may
+    also put a copy of the deleted cell (same content, new id -- cut and
+    paste) in front of its new cell."""
     acts_ = globals()[acts]
 
     def h(E):
@@ -863,6 +866,7 @@ def make_owned(templates, ids=(0, 1), acts="OWN_ACTS", inserts=True, props=("C06
             sr.append(a if owner[i] == 2 else "keep")
             se.append((a, owner[i]))
         insl, insr = {}, {}
+        pasted = {}
         if inserts:
             for g in range(n + 1):
                 c = E.choice("ins%d" % g, 3)
@@ -871,6 +875,8 @@ def make_owned(templates, ids=(0, 1), acts="OWN_ACTS", inserts=True, props=("C06
                     if (g > 0 and owner[g - 1] == other) or (g < n and owner[g] == other):
                         E.assume(False)
                     (insl if c == 1 else insr)[g] = ins_names[0] if c == 1 else ins_names[1]
+                    if paste and with_ids and g < n and owner[g] == c and se[g][0] == "del" and E.choice("paste%d" % g, 2):
+                        pasted[g] = c
         if not (any(o == 1 for o in owner) or insl) or not (any(o == 2 for o in owner) or insr):
             E.goal("one-sided-only")
         else:
@@ -886,8 +892,11 @@ def make_owned(templates, ids=(0, 1), acts="OWN_ACTS", inserts=True, props=("C06
                     if with_ids:
                         tm["id"] = G.NEW_IDS[side][0] + "g%d" % g
                     c = G.mk_cell(ctx, tm, "%s_i%d" % (side, g))
-                    (cells_l if side == "l" else cells_r).append(c)
-                    cells_e.append(c)
+                    run = [c]
+                    if pasted.get(g) == (1 if side == "l" else 2):
+                        run = [dict(base["cells"][g], id="pasted%03d" % g), c]
+                    (cells_l if side == "l" else cells_r).extend(run)
+                    cells_e.extend(run)
             if g < n:
                 cell = base["cells"][g]
                 a, o = se[g]
@@ -908,6 +917,11 @@ def make_owned(templates, ids=(0, 1), acts="OWN_ACTS", inserts=True, props=("C06
             E.fail("merge-raised", "%s: %s" % (type(ex).__name__, str(ex)[:200]))
             return
         conf = [dict(path=d.common_path, action=d.action) for d in ds if d.conflict]
+        if "F31" in known and any(g + 1 < n and owner[g + 1] == 3 - c for g, c in pasted.items()):
+            # F31: the pasted copy is aligned with the deleted cell, which moves the
+            # rest of the insertion next to the cell the other side changed
+            E.known("F31")
+            return
         E.check("different-cells-no-conflict", not conf,
                 info="conflicts %r for owners %r actions %r inserts %r %r" % (conf[:2], owner, se, insl, insr))
         E.check("different-cells-merged==both-change-sets", json_identical(m, want),
@@ -926,6 +940,8 @@ def owned_shards(tier, props, known):
                     dict(templates=tm, inserts=True, **kw)))
     out.append(("make_owned", "owned3-short", dict(templates=("codeS1", "codeS2", "codeS3"), inserts=True,
                                                    acts="OWN_ACTS_SHORT", ins_names=("Ns", "Ns"), ids=(0,), **kw)))
+    out.append(("make_owned", "owned-paste", dict(templates=("codeA", "codeB", "md"), inserts=True, paste=True,
+                                                  acts="OWN_ACTS_PASTE", ids=(1,), **kw)))
     if tier == "quick":
         out.append(("make_owned", "owned3-codeA-codeB-md",
                     dict(templates=("codeA", "codeB", "md"), inserts=False, acts="OWN_ACTS_SMALL", **kw)))
